@@ -92,6 +92,7 @@ type ctlSys struct {
 	burst         int // user events applied since the last delivery
 	lastUserDesc  string
 	gateViolation string
+	fullSyncOK    bool // harness's own record: a full re-sync of this controller instance returned without error
 	panicMsg      string
 	handlerCalls  []string // handler calls of the current delivery
 	allocEdges    []allocEdge
@@ -199,6 +200,7 @@ func (s *ctlSys) start() {
 	s.reloadCh = make(chan event.GenericEvent, 256)
 	s.c = &controller{ips: allocator.New(func(string) {}), client: sysClient{s}}
 	s.lastPresented = map[string]*v1.Service{}
+	s.fullSyncOK = false
 	s.appliedLayout = -1
 	s.lst = &k8s.Listener{
 		ServiceChanged: func(l log.Logger, name string, svc *v1.Service, eps []discovery.EndpointSlice) controllers.SyncState {
@@ -226,7 +228,7 @@ func (s *ctlSys) holdings() refalloc.Holdings {
 }
 
 func (s *ctlSys) serviceChanged(l log.Logger, name string, svc *v1.Service, eps []discovery.EndpointSlice) controllers.SyncState {
-	if !s.sr.VerifInitialLoadPerformed() && len(s.handlerCalls) > 0 && s.handlerCalls[0] == "single" {
+	if (!s.sr.VerifInitialLoadPerformed() || !s.fullSyncOK) && len(s.handlerCalls) > 0 && s.handlerCalls[0] == "single" {
 		s.gateViolation = "handler ran for single-service key " + name + " before the first full sync completed"
 	}
 	preIPs := s.c.ips.IPs(name)
@@ -330,7 +332,7 @@ func (s *ctlSys) Key() string {
 	}
 	b.WriteString(s.c.ips.VerifDump())
 	fmt.Fprintf(&b, "cpools=%s\n", controllers.VerifPoolsDump(s.c.pools))
-	fmt.Fprintf(&b, "initialLoad=%v prcfg=%s\n", s.sr.VerifInitialLoadPerformed(), s.pr.VerifCurrentConfig())
+	fmt.Fprintf(&b, "initialLoad=%v/%v prcfg=%s\n", s.sr.VerifInitialLoadPerformed(), s.fullSyncOK, s.pr.VerifCurrentConfig())
 	var lp []string
 	for k, v := range s.lastPresented {
 		if v != nil {
@@ -395,6 +397,9 @@ func (s *ctlSys) Enabled() []verifrt.Event {
 	if faultMenu {
 		for _, k := range s.svcQ.Keys() {
 			evs = append(evs, verifrt.Event{Kind: "svc", S: k, B: 1, Fault: true}) // first status write of this delivery fails
+		}
+		if s.svcQ.Has("reload") && !s.fullSyncOK {
+			evs = append(evs, verifrt.Event{Kind: "svc", S: "reload", B: 2, Fault: true}) // listing the Services fails during the first full sync
 		}
 	}
 	if crashMenu {
@@ -536,12 +541,27 @@ func (s *ctlSys) Apply(ev verifrt.Event) {
 		} else {
 			s.handlerCalls = append(s.handlerCalls, "full")
 		}
+		if ev.B == 2 {
+			// environment fault: listing the Services fails once
+			failed := false
+			s.store.Fail = func(op, kind string) error {
+				if op == "list" && kind == "Service" && !failed {
+					failed = true
+					return fmt.Errorf("verif: injected list failure")
+				}
+				return nil
+			}
+			s.failWrites = 0
+		}
 		crashed := s.guard(func() {
 			_, err := s.sr.Reconcile(context.Background(), req)
 			if err != nil {
 				s.svcQ.Add(ev.S)
+			} else if ev.S == "reload" {
+				s.fullSyncOK = true
 			}
 		})
+		s.store.Fail = nil
 		if crashed {
 			s.lastUserDesc = "crash-at-status-write"
 			s.restart()
